@@ -75,6 +75,11 @@ let xcache : presult ref = ref (PErr InvalidHeader)
 
 let cache_of = function POk c -> Some c | PErr _ -> None
 
+(* the model's cache writer keeps its string table as an association list (quadratic); for very large
+   corpus files only the specification and the mapper model are evaluated *)
+let big_limit = 150_000
+let is_big st = List.compare_length_with st.bytes big_limit > 0
+
 (* answers of the model's cache reader on a parsed cache *)
 let c_class pc name = match cache_of pc with None -> "noparse" | Some c -> tok_of_ostr (c_remap_class c name)
 let c_method pc cl m = match cache_of pc with None -> "noparse" | Some c -> show_pair (c_remap_method c cl m)
@@ -104,28 +109,28 @@ let handle (line : string) : string =
     let c = str_of_hex c in
     "s=" ^ tok_of_ostr (sclass (Lazy.force st.rs) c) ^
     ";m=" ^ tok_of_ostr (m_remap_class (Lazy.force st.mp) c) ^
-    ";c=" ^ c_class (Lazy.force st.pc) c
+    ";c=" ^ (if is_big st then "SKIPPED" else c_class (Lazy.force st.pc) c)
   | ["T"; c; m] ->
     let c = str_of_hex c and m = str_of_hex m in
     "s=" ^ show_pair (smethod (Lazy.force st.rs) c m) ^
     ";m=" ^ show_pair (m_remap_method (Lazy.force st.mp) c m) ^
-    ";c=" ^ c_method (Lazy.force st.pc) c m
+    ";c=" ^ (if is_big st then "SKIPPED" else c_method (Lazy.force st.pc) c m)
   | ["L"; c; m; l; f] ->
     let c = str_of_hex c and m = str_of_hex m and l = n_of_dec l and f = ostr_of_tok f in
     "s=" ^ show_frames (sline (Lazy.force st.rs) c m l f) ^
     ";m=" ^ show_oframes (m_remap_frame_lines (Lazy.force st.mp) c m l f) ^
     ";n=" ^ show_oframes (m_remap_frame_lines (Lazy.force st.mp0) c m l f) ^
-    ";c=" ^ c_lines (Lazy.force st.pc) c m l f
+    ";c=" ^ (if is_big st then "SKIPPED" else c_lines (Lazy.force st.pc) c m l f)
   | ["P"; c; m; p] ->
     let c = str_of_hex c and m = str_of_hex m and p = str_of_hex p in
     "s=" ^ show_pframes (sparams (Lazy.force st.rs) c m p) ^
     ";m=" ^ show_pframes (m_remap_frame_params (Lazy.force st.mp) c m p) ^
-    ";c=" ^ c_params (Lazy.force st.pc) c m p
+    ";c=" ^ (if is_big st then "SKIPPED" else c_params (Lazy.force st.pc) c m p)
   | ["S"; t] ->
     let t = str_of_hex t in
     let rs = Lazy.force st.rs in
     "s=" ^ hex_of_str (remap_text (sclass rs) (fun c m l f -> sline rs c m l f) t) ^
-    ";c=" ^ c_text (Lazy.force st.pc) t
+    ";c=" ^ (if is_big st then "SKIPPED" else c_text (Lazy.force st.pc) t)
   | ["Y"; t] ->
     let t = str_of_hex t in
     let rs = Lazy.force st.rs in
@@ -139,8 +144,8 @@ let handle (line : string) : string =
   | ["G"; s] ->
     let s = str_of_hex s in
     let rs = Lazy.force st.rs in
-    "s=" ^ show_sig (deobfuscate (sclass rs) s) ^ ";c=" ^ c_sig (Lazy.force st.pc) s
-  | ["W"] -> "w=" ^ hex_of_str (Lazy.force st.cbytes)
+    "s=" ^ show_sig (deobfuscate (sclass rs) s) ^ ";c=" ^ (if is_big st then "SKIPPED" else c_sig (Lazy.force st.pc) s)
+  | ["W"] -> if is_big st then "w=SKIPPED" else "w=" ^ hex_of_str (Lazy.force st.cbytes)
   | ["X"; h] -> let r = parse (str_of_hex h) in xcache := r; "r=" ^ show_presult r
   | ["k"; c] -> "c=" ^ c_class !xcache (str_of_hex c)
   | ["t"; c; m] -> "c=" ^ c_method !xcache (str_of_hex c) (str_of_hex m)
